@@ -398,5 +398,71 @@ func TestC05(t *testing.T) {
 			src := g.program(rapid.IntRange(1, 4).Draw(rt, "depth"), rapid.IntRange(1, 3).Draw(rt, "top"))
 			c.c05Program(s, "rand-skeletons", place(src, drawPlacement(rt)), g.deepBrk)
 		})
+
+		// the initialiser of ফর in all its forms — none, an expression, one declaration, several declarations,
+		// names that shadow outer variables — runs once per execution of the loop statement, also when the loop
+		// statement itself runs several times in one scope (as the unbraced body of another loop), and leaves
+		// the outer variables as they were
+		c.Rapid("for-initialiser-forms", n/2, func(rt *rapid.T, s *Sub) {
+			P, V := bn.KwPrint, bn.KwVar
+			var b strings.Builder
+			b.WriteString(V + " i = 100;\n" + V + " j = 200;\n" + V + " k = 300;\n" + V + " runs = 0;\n")
+			var loop func(ind string, d int, names []string)
+			loop = func(ind string, d int, names []string) {
+				v := rapid.SampledFrom(names).Draw(rt, "counter")
+				w := rapid.SampledFrom(names).Draw(rt, "second")
+				bound := rapid.IntRange(1, 3).Draw(rt, "bound")
+				var init string
+				fresh := true
+				switch rapid.IntRange(0, 5).Draw(rt, "init") {
+				case 0:
+					init, fresh = v+" = 0;", false
+				case 1:
+					init = V + " " + v + " = 0;"
+				case 2, 3:
+					if w == v {
+						w = "extra"
+					}
+					init = V + " " + v + " = 0, " + w + " = " + v + " + 10;"
+				case 4:
+					if w == v {
+						w = "extra"
+					}
+					init = V + " " + w + " = 7, " + v + " = 0, late;"
+				default:
+					b.WriteString(ind + v + " = 0;\n")
+					init, fresh = ";", false
+				}
+				b.WriteString(ind + bn.KwFor + " (" + init + " " + v + " < " + fmt.Sprint(bound) + "; " + v + " = " + v + " + 1)")
+				inner := ind + "  "
+				show := func() {
+					b.WriteString(inner + "runs = runs + 1;\n" + inner + P + " [" + strings.Join(names, ", ") + ", runs];\n")
+				}
+				switch k := rapid.IntRange(0, 3).Draw(rt, "body"); {
+				case k == 0 && d > 0 && fresh:
+					// another loop statement directly as the body: it runs once per iteration in the scope of this loop
+					b.WriteString("\n")
+					loop(inner, d-1, names)
+				case k == 1 || d <= 0:
+					b.WriteString(" {\n")
+					show()
+					b.WriteString(ind + "}\n")
+				default:
+					b.WriteString(" {\n")
+					show()
+					loop(inner, d-1, names)
+					if rapid.Bool().Draw(rt, "twiceInOneScope") {
+						loop(inner, d-1, names)
+					}
+					b.WriteString(ind + "}\n")
+				}
+				b.WriteString(ind + P + " [" + strings.Join(names, ", ") + "];\n")
+			}
+			names := []string{"i", "j", "k"}
+			for n := rapid.IntRange(1, 2).Draw(rt, "top"); n > 0; n-- {
+				loop("", rapid.IntRange(1, 3).Draw(rt, "depth"), names)
+			}
+			c.c05Program(s, "for-initialiser-forms", place(b.String(), drawPlacement(rt)), true)
+		})
 	})
 }
